@@ -314,28 +314,56 @@ func (fr *Frame) termIn(g *GVal, env *Env) *Term {
 
 // lookupDebugVar resolves a source-level local variable name to an SSA value dominating head.
 func (fr *Frame) lookupDebugVar(name string, head *ssa.BasicBlock) *GVal {
-	vs := fr.dbg[name]
-	var found ssa.Value
-	for _, v := range vs {
-		in, ok := v.(ssa.Instruction)
-		if ok {
-			if in.Block() == nil || !(in.Block().Dominates(head)) {
-				continue
-			}
-		}
-		if _, known := fr.vals[v]; !known {
-			if _, isConst := v.(*ssa.Const); !isConst {
-				if _, isParam := v.(*ssa.Parameter); !isParam {
-					continue
+	// all debug references of the whole function (the declaration-site reference of x/tools'
+	// go/ssa carries the zero value, so later references are consulted as well)
+	if fr.dbgAll == nil {
+		fr.dbgAll = map[string][]ssa.Value{}
+		for _, b := range fr.fn.Blocks {
+			for _, in := range b.Instrs {
+				if d, ok := in.(*ssa.DebugRef); ok {
+					if v, ok := d.Object().(*types.Var); ok && v != nil && !v.IsField() {
+						fr.dbgAll[v.Name()] = append(fr.dbgAll[v.Name()], d.X)
+					}
 				}
 			}
 		}
-		if found != nil && found != v {
-			// several candidate values: ambiguous unless identical
-			found = v // take the latest dominating definition
+	}
+	var found ssa.Value
+	var constCand ssa.Value
+	for _, v := range fr.dbgAll[name] {
+		switch x := v.(type) {
+		case *ssa.Const:
+			constCand = v
+			continue
+		case *ssa.Parameter:
+		case ssa.Instruction:
+			if x.Block() == nil || !x.Block().Dominates(head) {
+				continue
+			}
+			if _, known := fr.vals[v]; !known {
+				continue
+			}
+			if phi, isPhi := v.(*ssa.Phi); isPhi && phi.Block() == head {
+				continue // header phis are bound by the loop environment
+			}
+		default:
 			continue
 		}
-		found = v
+		if found == nil || found == v {
+			found = v
+			continue
+		}
+		// several dominating definitions: keep the later one
+		if fi, ok := found.(ssa.Instruction); ok {
+			if vi, ok := v.(ssa.Instruction); ok && fi.Block().Dominates(vi.Block()) {
+				found = v
+			}
+		} else {
+			found = v
+		}
+	}
+	if found == nil {
+		found = constCand
 	}
 	if found == nil {
 		return nil
@@ -655,6 +683,8 @@ func (fr *Frame) evalCall(e *CExpr, env *Env, hint *Sort) *GVal {
 		if mi := w.MapInfoOfSort(m.S); mi != nil {
 			return tv(mapPut(w, m, arg(1, mi.K), arg(2, mi.V)))
 		}
+	case "nilNodes":
+		return tv(w.MkSlice(SNode, ConstArray(SArray(SInt, SNode), ex.zeroElem(nodeType(ex.p))), IntLit(0), TTrue))
 	case "emptyObj":
 		if obj := ex.p.pkg.Pkg.Scope().Lookup("specEmptyObj"); obj != nil {
 			mt := obj.Type().(*types.Signature).Results().At(0).Type()
@@ -717,3 +747,7 @@ func (fr *Frame) evalCall(e *CExpr, env *Env, hint *Sort) *GVal {
 }
 
 var _ = fmt.Sprintf
+
+func nodeType(p *Prog) types.Type {
+	return p.pkg.Pkg.Scope().Lookup("ASTNode").Type()
+}
